@@ -358,41 +358,63 @@ def evaluate(ctx, job, spec_id, refs_of, stats):
             ctx.violation("project %d, invocation %d (%s): %s" % (job["idx"], k, pinv["kind"], what), case, sig)
 
 
-def run(ctx, spec_id, refs_of, indices=None, reserve=75):
-    n = ctx.scale(24, 500)
-    tmp = os.path.join(ctx.tmp, "builds")
-    os.makedirs(tmp, exist_ok=True)
-    par = 8
-    todo = list(indices if indices is not None else range(n))
-    running, stats = [], {"projects": 0}
-    sandbox_every = 6
-    t_limit = ctx.scale(90, 600)
-    while todo or running:
-        while todo and len(running) < par and ctx.time_left() > reserve + 20:
-            idx = todo.pop(0)
-            running.append(launch(ctx, idx, sandbox=(idx % sandbox_every == sandbox_every - 1), tmp=tmp))
-        if todo and not running:
-            ctx.skip("real-build stream cut: %d projects not run (time)" % len(todo))
-            break
+class Runner:
+    """runs the projects in child processes, at most `par` at a time; `pump()` is called from the parent's own
+    loops so that builds and the API level stream overlap"""
+
+    def __init__(self, ctx, spec_id, refs_of, indices=None, reserve=60, tail=35):
+        self.ctx, self.spec_id, self.refs_of = ctx, spec_id, refs_of
+        self.reserve, self.tail = reserve, tail
+        self.tmp = os.path.join(ctx.tmp, "builds")
+        os.makedirs(self.tmp, exist_ok=True)
+        self.par = 8
+        self.todo = list(indices if indices is not None else range(ctx.scale(24, 400)))
+        self.running, self.stats = [], {"projects": 0}
+        self.t_limit = ctx.scale(110, 600)
+        # the first wave always runs (also when the machine is so loaded that the Lean steps used up the time):
+        # a check without a single real build would say nothing about the truthful clause
+        self.first = set(self.todo[:ctx.scale(6, 8)])
+        self.cut = False
+
+    def pump(self):
+        ctx = self.ctx
+        while self.todo and len(self.running) < self.par and \
+                (self.todo[0] in self.first or ctx.time_left() > self.reserve):
+            idx = self.todo.pop(0)
+            self.running.append(launch(ctx, idx, sandbox=(idx % 6 == 5), tmp=self.tmp))
         still = []
-        for job in running:
+        for job in self.running:
             if job["p"].poll() is None:
-                if time.time() - job["t0"] > t_limit or ctx.time_left() < reserve - 20:
+                late = job["idx"] not in self.first and ctx.time_left() < self.tail
+                if time.time() - job["t0"] > self.t_limit or late:
                     job["p"].kill()
                     job["p"].wait()
                     ctx.skip("a build helper was stopped (time)")
+                    if os.path.exists(job["report"]):       # invocations finished so far
+                        self.stats["projects"] += 1
+                        evaluate(ctx, job, self.spec_id, self.refs_of, self.stats)
                 else:
                     still.append(job)
                 continue
-            stats["projects"] += 1
-            evaluate(ctx, job, spec_id, refs_of, stats)
-        running = still
-        if running:
-            time.sleep(0.05)
-        if not running and todo and ctx.time_left() <= reserve + 20:
-            ctx.skip("real-build stream cut: %d projects not run (time)" % len(todo))
+            self.stats["projects"] += 1
+            evaluate(ctx, job, self.spec_id, self.refs_of, self.stats)
+        self.running = still
+
+    def finish(self):
+        while True:
+            self.pump()
+            if self.running:
+                time.sleep(0.05)
+                continue
+            if self.todo and not self.cut:
+                self.cut = True
+                self.ctx.skip("real-build stream cut: %d projects not run (time)" % len(self.todo))
             break
-    return stats
+        return self.stats
+
+
+def run(ctx, spec_id, refs_of, indices=None, reserve=60):
+    return Runner(ctx, spec_id, refs_of, indices, reserve).finish()
 
 
 def replay(ctx, case, spec_id, refs_of):
